@@ -34,11 +34,11 @@ CHECKS = {
    "Trusted: the version byte is read from the reference decode; after a correct rejection nothing further is demanded.",
    "deterministic simulation: exhaustive version-value sweep + seeded histories against the reference model"),
  "C04": ("fault_enumeration", "7/C04",
-   "Five enumerated fault spaces (every (size byte, type byte) header x both modes x two fills; every byte position of one frame per packet kind x substitute values (all 256 in the thorough tier); every truncation point of those frames followed by valid frames; multi-byte text patterns at every body position; every pair of body positions of short frames x enumerant-range value pairs) plus seeded multi-fault sessions, delivered in scripted segments into one long-lived receive buffer; the property's invariants (no panic, need-more leaves the buffer untouched, exactly the announced frame removed, framing error for impossible lengths, result independent of following bytes and of what the same Codec saw in another buffer) are checked after every decoder call, and the same streams run through both real connections.",
+   "Six enumerated fault spaces (every (size byte, type byte) header x both modes x two fills; every byte position of one frame per packet kind x substitute values (all 256 in the thorough tier); every truncation point of those frames followed by valid frames; multi-byte text patterns at every body position; every pair of body positions of short frames x enumerant-range value pairs; the body filled with one non-zero value and one byte replaced by NUL / ^ / 0x80 at every position), base frames including templates for kinds that refuse an all-zero body, plus seeded multi-fault sessions, delivered in scripted segments into one long-lived receive buffer; the property's invariants (no panic, need-more leaves the buffer untouched, exactly the announced frame removed, framing error for impossible lengths, result independent of following bytes and of what the same Codec saw in another buffer) are checked after every decoder call, and the same streams run through both real connections.",
    "'For all byte strings' is sampled apart from the enumerated sub-spaces. Built with overflow-checks and debug-assertions on. Trusted: catch_unwind boundary, hand-written invariant checker.",
    "fault enumeration over header/byte/truncation spaces + seeded corruption sessions, invariants after every decoder call"),
  "C08": ("exploration", "7/C08, 4.2",
-   "Real blocking and tokio UdpStream adaptors inside the real Framed over kernel loopback sockets driven in lock-step from one thread: seeded datagram sequences (1..n frames per datagram, 4..1020 bytes, fixed-shape or mixed, peer-side loss/duplication/reordering) up to ~10x the receive buffer, reads into an empty queue (socket timeout), peer crash and restart on the same port (ICMP error queued on the connection's socket, with and without a buffered keep-alive), packets the encoder refuses; each read must return the model's next frame, each keep-alive and each write that returns Ok must reach the peer as exactly one datagram holding exactly its frame.",
+   "Real blocking and tokio UdpStream adaptors inside the real Framed over kernel loopback sockets driven in lock-step from one thread: seeded datagram sequences (1..n frames per datagram, 4..1020 bytes, fixed-shape or mixed, peer-side loss/duplication/reordering) up to ~10x the receive buffer, reads into an empty queue (socket timeout), peer crash and restart on the same port (ICMP error queued on the connection's socket, with and without a buffered keep-alive), packets the encoder refuses, connections made by the real Builder, datagrams from another address on the peer's host; each read must return the model's next frame, each keep-alive and each write that returns Ok must reach the peer as exactly one datagram holding exactly its frame.",
    "Loopback kernel sockets are a real component: order-preserving and lossless at <= 8 datagrams in flight; real time with a 3 s guard per call. Honest scripting over a real pipe, not full simulation (DESIGN 4.2).",
    "seeded lock-step scripting of real adaptors over loopback (datagram loss/dup/reorder applied by the peer script) against the sequential model"),
  "C17": ("fault_enumeration", "7/C17, 4.3",
@@ -50,7 +50,7 @@ CHECKS = {
    "Builder->Isi is a pure function: the simulator contributes configuration swarm and decides only the I/O half. Relay connect paths are unreachable offline. UDP 'only frame' = no second datagram within 30 ms.",
    "configuration exploration against a reference model + simulated handshake under write faults + real connect over loopback"),
  "C20": ("exploration", "7/C20, 4.2",
-   "Real WebsocketStream inside the real tokio Framed against a scripted tokio-tungstenite server endpoint in the same current-thread runtime over a loopback TCP pair: seeded partitions of the frame stream into binary messages (one per message, several, split anywhere, > 1020 and > 6120 bytes, every message starting inside a frame), interleaved text/ping/pong/empty messages and runs of 33..90 control messages, writes and write bursts against a late reader with minimal socket buffers (back-pressure), close handshake with any status code or abrupt drop, end of stream queued behind unread data; reads must equal the model on the concatenated payloads without stalling, writes/keep-alive replies must arrive as exactly one binary message.",
+   "Real WebsocketStream inside the real tokio Framed against a scripted tokio-tungstenite server endpoint in the same current-thread runtime over a loopback TCP pair: seeded partitions of the frame stream into binary messages (one per message, several, split anywhere, > 1020 and > 6120 bytes, every message starting inside a frame), interleaved text/ping/pong/empty messages and runs of 33..90 control messages, writes and write bursts against a late reader with minimal socket buffers (back-pressure), close handshake with any status code or abrupt drop, end of stream queued behind unread data, thousands of writes abandoned after two polls against a relay that has stopped reading (with a keep-alive to answer behind the backlog), sessions that use the adaptor directly as an AsyncRead through read_exact; reads must equal the model on the concatenated payloads without stalling, writes/keep-alive replies must arrive as exactly one binary message.",
    "Loopback TCP and tungstenite's protocol engine are real components; real time with a 3 s guard per call; HTTP upgrade to isrelay.lfs.net is bypassed with from_raw_socket.",
    "seeded lock-step scripting of the real adaptor against a scripted WebSocket server, sequential model on concatenated binary payloads"),
  "C19": ("exploration", "7/C19, 4.1",
